@@ -243,6 +243,60 @@ impl Check for MatchCheck {
                     eqs.push((i as u32, Pat::Node { op: k.t.op, pay: k.t.pay, slots: k.t.slots.clone(), kids: kk }));
                 }
             }
+            {
+                // (own stream) a second root that shares child variables with the first one, leaf
+                // equations for every child that is a leaf, and sometimes two slots of the whole
+                // multi-pattern identified: then the instance the pattern was read off is NOT a match
+                // any more (a pattern slot stands for one e-graph slot), and nothing else may be
+                // reported unless it really is represented
+                let mut mr = Rng::stream(seed ^ eqs.len() as u64, "multi-extra");
+                if mr.chance(1, 2) {
+                    let kid_var: Vec<(Tm, u32)> = match &eqs[0].1 {
+                        Pat::Node { kids, .. } => t.kids.iter().zip(kids.iter()).filter_map(|(k, (_, p))| if let Pat::Var(v) = p { Some((k.t.clone(), *v)) } else { None }).collect(),
+                        _ => Vec::new(),
+                    };
+                    let others: Vec<&Tm> = terms.iter().filter(|u| !u.kids.is_empty() && **u != t && u.kids.iter().any(|k| kid_var.iter().any(|(kt, _)| *kt == k.t))).collect();
+                    if !others.is_empty() {
+                        let u = (*mr.pick(&others)).clone();
+                        let kids: Vec<(Vec<S>, Pat)> = u
+                            .kids
+                            .iter()
+                            .map(|k| {
+                                let v = match kid_var.iter().find(|(kt, _)| *kt == k.t) {
+                                    Some((_, v)) => *v,
+                                    None => {
+                                        next += 1;
+                                        next - 1
+                                    }
+                                };
+                                (k.binders.clone(), Pat::Var(v))
+                            })
+                            .collect();
+                        eqs.push((101, Pat::Node { op: u.op, pay: u.pay, slots: u.slots.clone(), kids }));
+                    }
+                    // leaf equations for the children of the first root that are leaves
+                    for (kt, v) in &kid_var {
+                        if kt.kids.is_empty() && !eqs.iter().any(|(w, _)| w == v) && mr.chance(2, 3) {
+                            eqs.push((*v, Pat::Node { op: kt.op, pay: kt.pay, slots: kt.slots.clone(), kids: vec![] }));
+                        }
+                    }
+                }
+                if mr.chance(1, 3) {
+                    let mut sl = Vec::new();
+                    for (_, p) in &eqs {
+                        pat_slots(p, &mut sl);
+                    }
+                    sl.sort();
+                    sl.dedup();
+                    if sl.len() >= 2 {
+                        let a = sl[mr.below(sl.len())];
+                        let b = sl[mr.below(sl.len())];
+                        if a != b {
+                            eqs = eqs.into_iter().map(|(v, p)| (v, rename_pat_slot(&p, a, b))).collect();
+                        }
+                    }
+                }
+            }
             // the order of the equations decides which variables are already bound when a node
             // is matched
             if rng.chance(1, 2) {
